@@ -44,13 +44,9 @@ Section SlugFns.
   (* s.strip() *)
   Definition strip (s : str) : str := rev (lstrip (rev (lstrip s))).
 
-  (* base.py default_slugify (after the repair):
-     _SLUGIFY_CLEAN_REGEX.sub("", title.strip().lower().replace(" ", "-")) *)
+  (* base.py default_slugify:
+     _SLUGIFY_CLEAN_REGEX.sub("", title.lower().replace(" ", "-"))   -- note: no strip() *)
   Definition default_slugify (cls : list citem) (title : str) : str :=
-    re_sub_neg cls (replace_sp_hy (lower (strip title))).
-
-  (* base.py default_slugify as it was before the repair: no strip() *)
-  Definition default_slugify_nostrip (cls : list citem) (title : str) : str :=
     re_sub_neg cls (replace_sp_hy (lower title)).
 
   (* anchors plug-in: re.sub(r"[^...]", "", title.strip().lower().replace(" ", "-")) *)
